@@ -79,19 +79,21 @@ def input_digest(prog):
     out = [0] * (T + 1)
     tabs = {"px": prog["px"]}
     for k, v in prog.get("extra", {}).items():
-        if isinstance(v, dict) and not v.get("__raw__") and not v.get("__series__"):
+        if isinstance(v, dict) and v.get("__group__"):
+            for m, tab in v["frames"].items():
+                tabs[k + "." + m] = tab
+        elif isinstance(v, dict) and not v.get("__raw__") and not v.get("__series__"):
             tabs[k] = v
         elif isinstance(v, dict) and v.get("__series__"):
             tabs[k] = {"s": v["values"]}
     for tn, tab in sorted(tabs.items()):
         rows = tab.get("__idx__")
-        for c, col in sorted(tab.items()):
-            if c == "__idx__":
-                continue
+        lead = int(tab.get("__lead__", 0))
+        for c, col in sorted((kv for kv in tab.items() if kv[0] not in ("__idx__", "__lead__")), key=lambda kv: kv[0]):
             for i, x in enumerate(col):
                 if rows is not None and i not in rows:
                     continue
-                out[i + 1] ^= zlib.crc32(("%s|%s|%r" % (tn, c, x)).encode())
+                out[max(0, i - lead + 1)] ^= zlib.crc32(("%s|%s|%d|%r" % (tn, c, i, x)).encode())
     return [x & 0x3FFFFFFF for x in out]
 
 
@@ -99,15 +101,19 @@ def perturb(prog, cut, rng, kind=None):
     """A copy of prog whose supplied data strictly after date index `cut`
     (1-based over the data rows) is changed; the date index itself is kept."""
     q = copy.deepcopy(prog)
-    tabs = [("px", q["px"])] + [(k, v) for k, v in q.get("extra", {}).items() if isinstance(v, dict) and not v.get("__raw__")]
+    tabs = [("px", q["px"])] + [(k, v) for k, v in q.get("extra", {}).items() if isinstance(v, dict) and not v.get("__raw__") and not v.get("__group__")]
+    for k, v in q.get("extra", {}).items():
+        if isinstance(v, dict) and v.get("__group__"):
+            tabs += [(k + "." + m, tab) for m, tab in v["frames"].items()]
     kind = kind or rng.choice(["px", "all", "all", "all", "one"])
     chosen = tabs if kind == "all" else ([tabs[0]] if kind == "px" else [rng.choice(tabs)])
     changed = False
     for name, tab in chosen:
         cols = tab["values"] if tab.get("__series__") else None
-        items = [("s", cols)] if cols is not None else [kv for kv in tab.items() if kv[0] != "__idx__"]
+        items = [("s", cols)] if cols is not None else [kv for kv in tab.items() if kv[0] not in ("__idx__", "__lead__")]
+        lead = 0 if cols is not None else int(tab.get("__lead__", 0))
         for c, col in items:
-            for i in range(cut, len(col)):
+            for i in range(lead + cut, len(col)):
                 old = col[i]
                 mode = rng.random()
                 if name == "px" or name == "bidoffer":
